@@ -3,6 +3,7 @@ package checks
 import (
 	"bytes"
 	"strings"
+	"time"
 
 	mintertypes "github.com/chain4energy/c4e-chain/x/cfeminter/types"
 	sdk "github.com/cosmos/cosmos-sdk/types"
@@ -28,7 +29,7 @@ func init() {
 		Real:       append([]string{"x/gov v1 (submit, deposit, vote, tally, execution through the message router)"}, distReal...),
 		Stub:       distStub,
 		Assumes:    []string{"the genesis delegator holds all bonded stake, so its vote decides", "voting period is 30 simulated seconds"},
-		FaultKinds: []string{"F-gov (updates executed by real governance at arbitrary points)", "F-malformed (invalid and partially valid payloads, every authority string)", "F-order"},
+		FaultKinds: []string{"F-gov (updates executed by real governance at arbitrary points)", "F-malformed (invalid and partially valid payloads, every authority string)", "F-order", "F-crash (every fifth run: death before / inside Commit, restart, re-execution with proposals in flight)", "F-simulate + F-rollback (every fifth run: a quarter of the transactions are only handed to the Simulate service, or are a governance execution [parameter update, failing message] that x/gov drops as a whole; nothing of either may stick)"},
 	})
 }
 
@@ -41,9 +42,9 @@ type paramSnap struct {
 func takeParamSnap(c *kernel.Chain) paramSnap {
 	ctx := c.Ctx()
 	cdc := kernel.Enc().Marshaler
-	mp := c.App.CfeminterKeeper.GetParams(ctx)
-	dp := c.App.CfedistributorKeeper.GetParams(ctx)
-	vp := c.App.CfevestingKeeper.GetParams(ctx)
+	mp := c.MinterParams()
+	dp := c.DistParams()
+	vp := c.VestingParams()
 	return paramSnap{minter: cdc.MustMarshal(&mp), dist: cdc.MustMarshal(&dp), vesting: cdc.MustMarshal(&vp), vdenom: vp.Denom,
 		pools: len(c.App.CfevestingKeeper.GetAllAccountVestingPools(ctx))}
 }
@@ -61,19 +62,25 @@ func (m *c13Monitor) validate(r *kernel.Run, where string) {
 	c := r.Chain
 	ctx := c.Ctx()
 	m.evals++
-	mp := c.App.CfeminterKeeper.GetParams(ctx)
+	mp := c.MinterParams()
 	if err := mp.Validate(); err != nil {
 		r.Violate("C13", "stored-valid", "stored-minter-params-invalid", "%s: stored minter parameters fail validation: %v", where, err)
 	}
 	st := c.App.CfeminterKeeper.GetMinterState(ctx)
-	if !mp.ContainsMinter(st.SequenceId) {
+	found := false
+	for _, mm := range mp.Minters {
+		if mm != nil && mm.SequenceId == st.SequenceId {
+			found = true
+		}
+	}
+	if !found {
 		r.Violate("C13", "stored-valid", "current-period-missing", "%s: the minter's current period %d is not in the stored configuration", where, st.SequenceId)
 	}
-	dp := c.App.CfedistributorKeeper.GetParams(ctx)
+	dp := c.DistParams()
 	if err := dp.Validate(); err != nil {
 		r.Violate("C13", "stored-valid", "stored-distributor-params-invalid", "%s: stored distributor parameters fail validation: %v", where, err)
 	}
-	vp := c.App.CfevestingKeeper.GetParams(ctx)
+	vp := c.VestingParams()
 	if err := vp.Validate(); err != nil {
 		r.Violate("C13", "stored-valid", "stored-vesting-params-invalid", "%s: stored vesting parameters fail validation: %v", where, err)
 	}
@@ -124,7 +131,7 @@ func (m *c13Monitor) AfterTx(r *kernel.Run, tx *kernel.Tx, msgs []sdk.Msg, res *
 		}
 	}
 	if changed {
-		legit := isUpdate && tx.Route == "direct" && auth == gov() && res.OK
+		legit := isUpdate && (tx.Route == "direct" || tx.Route == "srv") && auth == gov() && res.OK
 		if !legit {
 			r.Violate("C13", "authority", "params-changed-without-governance:"+tx.Note, "parameters changed by %s (route %q, authority %q, ok=%v)", typ, tx.Route, auth, res.OK)
 		} else {
@@ -134,7 +141,7 @@ func (m *c13Monitor) AfterTx(r *kernel.Run, tx *kernel.Tx, msgs []sdk.Msg, res *
 			r.Violate("C13", "rejected-intact", "rejected-update-changed-params", "a refused %s changed the stored parameters", typ)
 		}
 	}
-	if isUpdate && tx.Route == "direct" && auth != gov() && res.OK {
+	if isUpdate && (tx.Route == "direct" || tx.Route == "srv") && auth != gov() && res.OK {
 		r.Violate("C13", "authority", "handler-accepted-wrong-authority", "%s accepted authority %q", typ, auth)
 	}
 	if m.pre.vdenom != post.vdenom && m.pre.pools > 0 {
@@ -201,6 +208,10 @@ func c13World(seed uint64) (*kernel.Trace, *genSource) {
 		spec.Distributor = DistGenesisJSON(dp)
 	}
 	mcfg := MinterGenCfg{MaxPeriods: 4, MaxAmountExp: 24, MaxStepsHint: 200, Horizon: 2000 * 3600 * 1e9, AllowNone: true}
+	if r.P(0.5) {
+		// short schedules: the run walks through several periods, so updates meet later current periods
+		mcfg.Horizon = time.Duration(r.Range(40, 600)) * time.Second
+	}
 	if mp, err := GenMinterParams(r.Fork(3), spec.GenesisTime, BondDenom, mcfg); err == nil {
 		spec.Minter = MinterGenesisJSON(mp, spec.GenesisTime)
 	}
@@ -214,6 +225,12 @@ func c13World(seed uint64) (*kernel.Trace, *genSource) {
 			}
 			return int64(5e9) + x.I64n(2e9)
 		}}
+	if seed%5 == 3 {
+		simOverlay(src, spec)
+	}
+	if seed%5 == 2 {
+		src.CrashP = 0.12 // proposals in their voting period and half-applied parameter updates must survive a restart
+	}
 	return &kernel.Trace{Profile: "C13", Seed: seed, Spec: *spec}, src
 }
 
